@@ -39,6 +39,21 @@ Proof. exact draws_only_value_error. Qed.
 Theorem C13_empty_wf : forall h w ra re own r, 4 <= h -> 4 <= w -> Leaf (reset_empty h w ra re own) r ->
   exists s, r = Ok s /\ wf_check (PEmpty h w ra re) s = true.
 Proof. exact empty_wf. Qed.
+(* its exact shape: a walled room -- wall on the boundary, the exit on an inner cell, floor everywhere else -- with the agent on another inner
+   cell; without random placement the agent is at (1,1) facing RIGHT and the exit at (h-2, w-2) *)
+Theorem C13_empty_outcome : forall h w ra re own r, 4 <= h -> 4 <= w -> Leaf (reset_empty h w ra re own) r ->
+  exists g pe pa oa, r = Ok (mkS g pa oa NoneObj) /\ room h w g pe /\ inner h w pe /\ inner h w pa /\ pa <> pe /\
+                     (ra = false -> pa = (1, 1) /\ oa = RIGHT) /\ (re = false -> pe = (h - 2, w - 2)).
+Proof. exact empty_outcome. Qed.
+(* ---- `dynamic_obstacles`, every shape >= 4x4, ANY requested number, both flags, every outcome: ValueError (they do not fit) or a well-formed
+        state with one exit and exactly the requested number of obstacles ---- *)
+Theorem C13_dynamic_obstacles_wf : forall h w n ra own r, 4 <= h -> 4 <= w -> Leaf (reset_dynamic_obstacles h w n ra own) r ->
+  r = Err ValueError \/ exists s, r = Ok s /\ wf_check (PDynamicObstacles h w n ra) s = true.
+Proof. exact dynamic_obstacles_wf. Qed.
+(* ---- `teleport`, every shape >= 4x4, every outcome: never an error; one exit, exactly two telepods of one colour, agent on floor ---- *)
+Theorem C13_teleport_wf : forall h w own r, 4 <= h -> 4 <= w -> Leaf (reset_teleport h w own) r ->
+  exists s, r = Ok s /\ wf_check (PTeleport h w) s = true.
+Proof. exact teleport_wf. Qed.
 
 (* ---- complete outcome trees: every shipped parameter set whose tree is small enough for the kernel, and small shapes of
         every function (bound = the listed parameter sets) ---- *)
